@@ -9,15 +9,12 @@ def evalGb (op : String) (args : List Sexp) : Option String :=
   match op, args with
   | "gb.sliceref", pref :: a :: b :: infos => do
       let refs ← infos.mapM fun i => do pure (⟨0, ← decBytes? i⟩ : Ref)
-      match sliceRefs (← decBytes? pref) (← decInt? a) (← decInt? b) refs with
-      | none => pure "PANIC"
-      | some rs => pure (encList (rs.map fun r => s!"({r.number} {encBytes r.info})"))
+      let rs := sliceRefs (← decBytes? pref) (← decInt? a) (← decInt? b) refs
+      pure (encList (rs.map fun r => s!"({r.number} {encBytes r.info})"))
   | "gb.refinfo", [pref, info] => do
       match parseRefInfo (← decBytes? pref) (← decBytes? info) with
       | none => pure "ERR"
-      | some rs =>
-        if rs.any Option.isNone then pure "PANIC"
-        else pure (encList ((rs.filterMap id).map fun r => s!"(R {r.1} {r.2} 0 0)"))
+      | some rs => pure (encList (rs.map fun r => s!"(R {r.1} {r.2} 0 0)"))
   | _, _ => none
 
 end Gts
